@@ -31,6 +31,12 @@ func (nullClock) AfterFunc(time.Duration, func()) collector.VerifTimer { return 
 type c04op struct {
 	name string
 	msg  []byte
+	// probe: a template set whose meaning inside its own observation domain the statements leave open (RFC
+	// 7011 reads a field count of 0 as a withdrawal, the pinned library stores an empty template). Whatever
+	// it does there, it must leave every other observation domain exactly as it was; for its own domain the
+	// model adopts what the implementation did.
+	probe bool
+	dom   uint32
 }
 
 func c04Alphabet() []c04op {
@@ -49,31 +55,42 @@ func c04Alphabet() []c04op {
 			h := refcodec.Header{ExportTime: 1000 + d, Seq: uint32(id), Domain: d}
 			n := func(k string) string { return fmt.Sprintf("%s(d%d,%d)", k, d, id) }
 			ops = append(ops,
-				c04op{n("T_A"), refcodec.TemplateMsg(h, refcodec.Template{ID: id, Fields: tA})},
-				c04op{n("T_Ax"), refcodec.TemplateMsg(h, refcodec.Template{ID: id, Fields: tAx})},
-				c04op{n("T_B"), refcodec.TemplateMsg(h, refcodec.Template{ID: id, Fields: tB})},
+				c04op{name: n("T_A"), msg: refcodec.TemplateMsg(h, refcodec.Template{ID: id, Fields: tA})},
+				c04op{name: n("T_Ax"), msg: refcodec.TemplateMsg(h, refcodec.Template{ID: id, Fields: tAx})},
+				c04op{name: n("T_B"), msg: refcodec.TemplateMsg(h, refcodec.Template{ID: id, Fields: tB})},
 				// A's ids and widths under the reverse-information-element enterprise number
-				c04op{n("T_Arev"), refcodec.TemplateMsg(h, refcodec.Template{ID: id, Fields: []refcodec.FieldSpec{{ID: 7, PEN: 29305, Len: 2}, {ID: 11, PEN: 29305, Len: 2}, {ID: 4, PEN: 29305, Len: 1}}})},
+				c04op{name: n("T_Arev"), msg: refcodec.TemplateMsg(h, refcodec.Template{ID: id, Fields: []refcodec.FieldSpec{{ID: 7, PEN: 29305, Len: 2}, {ID: 11, PEN: 29305, Len: 2}, {ID: 4, PEN: 29305, Len: 1}}})},
 				// a known variable-length element announced with a fixed width of 4 (the library decodes at the registry width)
-				c04op{n("T_announced"), refcodec.TemplateMsg(h, refcodec.Template{ID: id, Fields: []refcodec.FieldSpec{{ID: 82, Len: 4}, {ID: 4, Len: 1}}})},
-				c04op{n("T_C"), refcodec.TemplateMsg(h, refcodec.Template{ID: id, Fields: tC})},
+				c04op{name: n("T_announced"), msg: refcodec.TemplateMsg(h, refcodec.Template{ID: id, Fields: []refcodec.FieldSpec{{ID: 82, Len: 4}, {ID: 4, Len: 1}}})},
+				c04op{name: n("T_C"), msg: refcodec.TemplateMsg(h, refcodec.Template{ID: id, Fields: tC})},
 				// unknown IANA element 999: refused in strict mode (a valid template in lenient modes)
-				c04op{n("Bad_unknown"), refcodec.TemplateMsg(h, refcodec.Template{ID: id, Fields: []refcodec.FieldSpec{{ID: 7, Len: 2}, {ID: 999, Len: 3}}})},
+				c04op{name: n("Bad_unknown"), msg: refcodec.TemplateMsg(h, refcodec.Template{ID: id, Fields: []refcodec.FieldSpec{{ID: 7, Len: 2}, {ID: 999, Len: 3}}})},
 				// the same unknown element announced with another width (lenient modes: a different valid template)
-				c04op{n("Bad_unknown5"), refcodec.TemplateMsg(h, refcodec.Template{ID: id, Fields: []refcodec.FieldSpec{{ID: 7, Len: 2}, {ID: 999, Len: 5}}})},
+				c04op{name: n("Bad_unknown5"), msg: refcodec.TemplateMsg(h, refcodec.Template{ID: id, Fields: []refcodec.FieldSpec{{ID: 7, Len: 2}, {ID: 999, Len: 5}}})},
 				// field count 3, only two specifiers present
-				c04op{n("Bad_trunc"), func() []byte {
+				c04op{name: n("Bad_trunc"), msg: func() []byte {
 					b := refcodec.TemplateBody(refcodec.Template{ID: id, Fields: tA})
 					return refcodec.Msg(h, 2, b[:len(b)-4])
 				}()},
 				// flowStartNanoseconds (156): a type the library cannot decode
-				c04op{n("Bad_type"), refcodec.TemplateMsg(h, refcodec.Template{ID: id, Fields: []refcodec.FieldSpec{{ID: 7, Len: 2}, {ID: 156, Len: 8}}})},
+				c04op{name: n("Bad_type"), msg: refcodec.TemplateMsg(h, refcodec.Template{ID: id, Fields: []refcodec.FieldSpec{{ID: 7, Len: 2}, {ID: 156, Len: 8}}})},
 				// template record header unreadable: nothing can be invalidated
-				c04op{n("Bad_noid"), refcodec.Msg(h, 2, []byte{0x01})},
-				c04op{n("D_A"), refcodec.Msg(h, id, bodyA)},
-				c04op{n("D_B"), refcodec.Msg(h, id, bodyB)},
-				c04op{n("D_C"), refcodec.Msg(h, id, bodyC)},
+				c04op{name: n("Bad_noid"), msg: refcodec.Msg(h, 2, []byte{0x01})},
+				c04op{name: n("D_A"), msg: refcodec.Msg(h, id, bodyA)},
+				c04op{name: n("D_B"), msg: refcodec.Msg(h, id, bodyB)},
+				c04op{name: n("D_C"), msg: refcodec.Msg(h, id, bodyC)},
 			)
+		}
+		hd := refcodec.Header{ExportTime: 1000 + d, Seq: 7, Domain: d}
+		ops = append(ops,
+			// template record (id 2, field count 0): RFC 7011 8.1 "all templates withdrawal"
+			c04op{name: fmt.Sprintf("Withdraw_all?(d%d)", d), msg: refcodec.Msg(hd, 2, []byte{0, 2, 0, 0}), probe: true, dom: d})
+		if d == 1 {
+			ops = append(ops,
+				// template record (id 256, field count 0): withdrawal of one template
+				c04op{name: fmt.Sprintf("Withdraw?(d%d,256)", d), msg: refcodec.Msg(hd, 2, []byte{1, 0, 0, 0}), probe: true, dom: d},
+				// a known variable-length octetArray element announced with a fixed width of 4
+				c04op{name: "T_announced_oct(d1,256)", msg: refcodec.TemplateMsg(refcodec.Header{ExportTime: 1001, Seq: 256, Domain: 1}, refcodec.Template{ID: 256, Fields: []refcodec.FieldSpec{{ID: 313, Len: 4}, {ID: 4, Len: 1}}})})
 		}
 	}
 	return ops
@@ -82,6 +99,30 @@ func c04Alphabet() []c04op {
 // c04Deep is the reduced alphabet of the deep pass: one domain, two ids, two templates, one bad template and
 // two bodies per id. State the collector might keep outside its template table (a cache, a "last used"
 // pointer) is invisible to the de-duplicated search of pass (b); only plain history enumeration reaches it.
+// c04Probes: the small alphabet in which the probe operations live (kept out of the main alphabet: the empty
+// templates the pinned library stores for them would multiply its state graph for nothing).
+func c04Probes(ops []c04op) []c04op {
+	var out []c04op
+	for _, o := range ops {
+		for _, k := range []string{"T_A(d0,256)", "T_A(d1,256)", "T_B(d1,257)", "D_A(d0,256)", "D_A(d1,256)", "D_B(d1,257)", "Bad_trunc(d1,256)", "Withdraw"} {
+			if strings.HasPrefix(o.name, k) {
+				out = append(out, o)
+			}
+		}
+	}
+	return out
+}
+
+func c04NoProbes(ops []c04op) []c04op {
+	var out []c04op
+	for _, o := range ops {
+		if !o.probe {
+			out = append(out, o)
+		}
+	}
+	return out
+}
+
 func c04Deep(ops []c04op) []c04op {
 	var out []c04op
 	for _, o := range ops {
@@ -129,6 +170,9 @@ func newC04(mode colmodel.Mode, proto string, ops []c04op) *c04sys {
 
 func (s *c04sys) Apply(op int) (v *xplore.Violation) {
 	o := s.ops[op]
+	if o.probe {
+		return s.applyProbe(o)
+	}
 	if c04guard != nil {
 		s.hist, s.names = append(s.hist, op), append(s.names, o.name)
 		w := c04where{s.name, s.hist, s.names}
@@ -179,6 +223,46 @@ func (s *c04sys) Apply(op int) (v *xplore.Violation) {
 	return nil
 }
 
+// applyProbe: see c04op.probe.
+func (s *c04sys) applyProbe(o c04op) (v *xplore.Violation) {
+	func() {
+		defer func() {
+			if r := recover(); r != nil {
+				v = xplore.V("panic", "decoding %s panicked: %v", o.name, r)
+			}
+		}()
+		s.cp.VerifDecodePacket(append([]byte{}, o.msg...), "10.0.0.1:4739")
+	}()
+	if v != nil {
+		return v
+	}
+	select {
+	case <-s.ch:
+	default:
+	}
+	tpls, _ := s.cp.VerifTemplates()
+	// other domains: table unchanged
+	var other []collector.VerifTemplate
+	for _, t := range tpls {
+		if t.Domain != o.dom {
+			other = append(other, t)
+		}
+	}
+	ic, _ := colcheck.ImplCanon(other, nil)
+	if mc, mw := s.model.CanonExcept(o.dom, false), s.model.CanonExcept(o.dom, true); ic != mc && ic != mw {
+		return xplore.V("cross-domain", "%s (a template set in observation domain %d) changed the templates of other observation domains: table there is now %s, was %s", o.name, o.dom, ic, mc)
+	}
+	// own domain: adopt
+	var own []colmodel.Held
+	for _, t := range tpls {
+		if t.Domain == o.dom {
+			own = append(own, colmodel.Held{ID: t.ID, IEs: t.IEs})
+		}
+	}
+	s.model.AdoptDomain(o.dom, own)
+	return nil
+}
+
 func (s *c04sys) Canon() string {
 	c, _ := colcheck.ImplCanon(s.cp.VerifTemplates())
 	return c
@@ -191,7 +275,9 @@ func (s *c04sys) Close() {
 
 func runC04(tier, replay string) int {
 	rep := common.NewReporter("C04")
-	ops := c04Alphabet()
+	all := c04Alphabet()
+	ops := c04NoProbes(all)
+	probeOps := c04Probes(all)
 	type cfgT struct {
 		mode  colmodel.Mode
 		proto string
@@ -231,13 +317,17 @@ func runC04(tier, replay string) int {
 		b, _ := json.Marshal(r.Trace)
 		json.Unmarshal(b, &tr)
 		for _, c := range cfgs {
-			if fmt.Sprintf("%s/%s", c.mode, c.proto) != strings.TrimSuffix(r.Scenario, "/deep") {
+			if fmt.Sprintf("%s/%s", c.mode, c.proto) != strings.TrimSuffix(strings.TrimSuffix(r.Scenario, "/deep"), "/probes") {
 				continue
 			}
 			x := mk(c)
 			if strings.HasSuffix(r.Scenario, "/deep") {
 				x = mkOps(c, deepOps, "/deep")
 				ops = deepOps
+			}
+			if strings.HasSuffix(r.Scenario, "/probes") {
+				x = mkOps(c, probeOps, "/probes")
+				ops = probeOps
 			}
 			for i, op := range tr.Hist {
 				fmt.Printf("  step %d: %s\n", i, ops[op].name)
@@ -265,20 +355,22 @@ func runC04(tier, replay string) int {
 	closedAll := true
 	var perCfg []interface{}
 	type runT struct {
-		c    cfgT
-		deep bool
+		cfg    cfgT
+		deep   bool
+		probes bool
 	}
 	var runs []runT
 	for _, c := range cfgs {
-		runs = append(runs, runT{c, false})
+		runs = append(runs, runT{cfg: c})
 	}
-	runs = append(runs, runT{cfgs[0], true}, runT{cfgs[3], true})
+	runs = append(runs, runT{cfg: cfgs[0], deep: true}, runT{cfg: cfgs[3], deep: true})
+	runs = append(runs, runT{cfg: cfgs[0], probes: true}, runT{cfg: cfgs[2], probes: true})
 	deepDepth := 5
 	if tier == "thorough" {
 		deepDepth = 7
 	}
 	for _, r := range runs {
-		c := r.c
+		c := r.cfg
 		x := mk(c)
 		x.HistDepth, x.StateDepth = histDepth, stateDepth
 		if c.mode != colmodel.Strict && tier != "thorough" {
@@ -286,6 +378,13 @@ func runC04(tier, replay string) int {
 		}
 		if tier == "thorough" && c.proto == "udp" {
 			x.HistDepth = 3 // depth 4 (10 M histories per configuration) is kept for the two tcp configurations
+		}
+		if r.probes {
+			x = mkOps(c, probeOps, "/probes")
+			x.HistDepth, x.StateDepth = 4, 0
+			if tier == "thorough" {
+				x.HistDepth = 5
+			}
 		}
 		if r.deep {
 			x = mkOps(c, deepOps, "/deep")
@@ -303,7 +402,7 @@ func runC04(tier, replay string) int {
 		trans += res.HistTransitions + res.StateTransitions
 		traces += res.Histories + res.StateTransitions
 		exhaustive = exhaustive && res.HistExhaustive
-		closedAll = closedAll && (res.Closed || r.deep) // the deep pass has no pass (b)
+		closedAll = closedAll && (res.Closed || r.deep || r.probes) // the deep and probe passes have no pass (b)
 		for _, s := range res.Samples {
 			if len(samples) < 8 {
 				samples = append(samples, map[string]interface{}{"config": x.Name, "history": s})
@@ -322,7 +421,7 @@ func runC04(tier, replay string) int {
 	cov["samples"] = samples
 	cov["evaluations"] = traces
 	cov["distinct_nontrivial"] = interesting
-	cov["rule"] = "pass (a): every history of the 56-message alphabet (2 domains, one of them 0, x 2 ids x {6 valid templates incl. one that extends another, one that differs only in enterprise number and one announcing a non-registry width, 5 bad templates (two of them valid in the lenient modes, announcing one unknown element with two widths), 3 data bodies}) up to hist_depth, replayed on a fresh collector in lock-step with the tmplstore/refcodec model; pass (b): BFS de-duplicated on the collector's template-table snapshot until the graph closes; deep pass: every history up to deep_depth over a 10-message sub-alphabet (one domain, two ids x {2 templates, 1 bad template, 2 bodies}) in strict/tcp and drop/udp, for state the table snapshot does not show. distinct_nontrivial = distinct reachable template tables with at least one template"
+	cov["rule"] = "pass (a): every history of the 57-message alphabet (2 domains, one of them 0, x 2 ids x {6 valid templates incl. one that extends another, one that differs only in enterprise number and one announcing a non-registry width, 5 bad templates (two of them valid in the lenient modes, announcing one unknown element with two widths), 3 data bodies}) up to hist_depth, replayed on a fresh collector in lock-step with the tmplstore/refcodec model; pass (b): BFS de-duplicated on the collector's template-table snapshot until the graph closes; probe pass: every history up to depth 4 (thorough 5) over an 11-message alphabet containing template records with a field count of 0 (RFC 7011 withdrawals; the pinned library stores an empty template): whatever such a message does in its own observation domain, the tables of the other domains must be unchanged; deep pass: every history up to deep_depth over a 10-message sub-alphabet (one domain, two ids x {2 templates, 1 bad template, 2 bodies}) in strict/tcp and drop/udp, for state the table snapshot does not show. distinct_nontrivial = distinct reachable template tables with at least one template"
 	cov["exhaustive"] = exhaustive && closedAll
 	cov["closed"] = closedAll
 	cov["per_config"] = perCfg
